@@ -954,6 +954,22 @@ def m_cow_from(ex, m, args, callee):
     return Enum('Cow', 0 if isinstance(args[0], (str, Ref)) else 1, 'Borrowed' if isinstance(args[0], (str, Ref)) else 'Owned', [t])
 
 
+@model(r'^RangeInclusive::(new|start|end|contains|is_empty)$|^<RangeInclusive<.*> as RangeBounds<.*>>::contains$|^Range::contains$')
+def m_range_incl(ex, m, args, callee):
+    k = m.group(1) or 'contains'
+    if k == 'new':
+        return Struct('RangeInclusive', [args[0], args[1], False])
+    r = val(args[0])
+    if k == 'start':
+        return Ref(Cell(r.fields[0], 'tmp'))
+    if k == 'end':
+        return Ref(Cell(r.fields[1], 'tmp'))
+    x = val(args[1])
+    if r.name == 'Range':
+        return b_and(n_le(r.fields[0], x), n_lt(x, r.fields[1]))
+    return b_and(n_le(r.fields[0], x), n_le(x, r.fields[1]))
+
+
 @model(r'^<(.*) as ToOwned>::to_owned$')
 def m_to_owned(ex, m, args, callee):
     return clone_value(ex, args[0])
@@ -1430,6 +1446,20 @@ def m_char(ex, m, args, callee):
     raise Unmodelled('char::%s on symbolic char' % k)
 
 
+@model(r'^<impl char>::(to_ascii_lowercase|to_ascii_uppercase|to_lowercase|to_uppercase)$')
+def m_char_case(ex, m, args, callee):
+    c = val(args[0])
+    k = m.group(1)
+    if k not in ('to_ascii_lowercase', 'to_ascii_uppercase'):
+        raise Unmodelled('char::' + k)
+    if is_conc(c):
+        ch = chr(c)
+        return ord(ch.lower() if k == 'to_ascii_lowercase' and ch.isascii() else ch.upper() if ch.isascii() and k == 'to_ascii_uppercase' else ch)
+    if k == 'to_ascii_lowercase':
+        return z3.If(z3.And(c >= 65, c <= 90), c + 32, c)
+    return z3.If(z3.And(c >= 97, c <= 122), c - 32, c)
+
+
 @model(r'^(from_digit|char::from_digit)$')
 def m_from_digit(ex, m, args, callee):
     d, radix = args
@@ -1518,6 +1548,14 @@ def m_numint_pow(ex, m, args, callee):
             ex.memo[('powof', r.get_id())] = (b, e)
         return r
     force(ex, b)
+    if is_conc(b):
+        # concrete base, symbolic but provably small exponent: exact table instead of an uninterpreted power
+        ez = zint(e)
+        if ex.check(z3.Or(ez < 0, ez > 128)) == z3.unsat:
+            r = z3.IntVal(b ** 128)
+            for k in range(127, -1, -1):
+                r = z3.If(ez == k, z3.IntVal(b ** k), r)
+            return r
     return ex.sym_pow(b, e)
 
 
